@@ -182,8 +182,9 @@ theorem inv_astep {init : Var → Val} {s : SysB Var Val ε α} {i : Nat} {tb : 
 /-! ## entering `commit()` -/
 
 theorem inv_enter {init : Var → Val} {s : SysB Var Val ε α} {i : Nat} {tb : ThreadB Var Val ε α} {a : α}
+    (ord : List Var → List Var) (hord : ∀ l v, v ∈ l → v ∈ ord l)
     (h : SInvB init s) (hti : s.threads[i]? = some tb) (hph : tb.ph = none) (hpc : tb.th.att.pc = .ret a) :
-    SInvB init { s with threads := s.threads.set i { th := tb.th, ph := some (logVars tb.th, []) } } := by
+    SInvB init { s with threads := s.threads.set i { th := tb.th, ph := some (ord (logVars tb.th), []) } } := by
   have htm : tb ∈ s.threads := List.mem_of_getElem? hti
   constructor
   · intro u hu
@@ -195,7 +196,7 @@ theorem inv_enter {init : Var → Val} {s : SysB Var Val ε α} {i : Nat} {tb : 
     · intro todo held hp
       simp only [Option.some.injEq, Prod.mk.injEq] at hp
       obtain ⟨rfl, rfl⟩ := hp
-      exact ⟨⟨a, hpc⟩, fun r _ hr => absurd hr (by simp), fun v hv => Or.inr hv⟩
+      exact ⟨⟨a, hpc⟩, fun r _ hr => absurd hr (by simp), fun v hv => Or.inr (hord _ v hv)⟩
     · intro j u _ _ todo held _ hc; exact hc
   · apply excl_set_shrink h.excl hti
     intro v hv
@@ -387,8 +388,9 @@ theorem inv_commit {init : Var → Val} {s : SysB Var Val ε α} {i : Nat} {tb :
 
 /-! ## every step preserves the invariant -/
 
-theorem stepB_inv (init : Var → Val) (s : SysB Var Val ε α) (i : Nat) (h : SInvB init s) :
-    SInvB init (s.step i) := by
+theorem stepB_inv (ord : List Var → List Var) (hord : ∀ l v, v ∈ l → v ∈ ord l)
+    (init : Var → Val) (s : SysB Var Val ε α) (i : Nat) (h : SInvB init s) :
+    SInvB init (s.step ord i) := by
   unfold SysB.step
   match hti : s.threads[i]? with
   | none => exact h
@@ -404,7 +406,7 @@ theorem stepB_inv (init : Var → Val) (s : SysB Var Val ε α) (i : Nat) (h : S
           match hpc : tb.th.att.pc with
           | .ret a =>
               simp only
-              exact inv_enter h hti hph hpc
+              exact inv_enter ord hord h hti hph hpc
           | .read v k =>
               simp only
               split
@@ -456,11 +458,12 @@ theorem stepB_inv (init : Var → Val) (s : SysB Var Val ε α) (i : Nat) (h : S
           | .retry => simp only; exact h
           | .panic => simp only; exact h
 
-theorem execB_inv (init : Var → Val) (sched : List Nat) :
-    ∀ s : SysB Var Val ε α, SInvB init s → SInvB init (s.exec sched) := by
+theorem execB_inv (ord : List Var → List Var) (hord : ∀ l v, v ∈ l → v ∈ ord l)
+    (init : Var → Val) (sched : List Nat) :
+    ∀ s : SysB Var Val ε α, SInvB init s → SInvB init (s.exec ord sched) := by
   induction sched with
   | nil => intro s h; exact h
-  | cons i is ih => intro s h; exact ih _ (stepB_inv init s i h)
+  | cons i is ih => intro s h; exact ih _ (stepB_inv ord hord init s i h)
 
 theorem initB_inv (init : Var → Val) (progs : List (List (Prog Var Val ε α))) :
     SInvB init (SysB.init init progs) := by
@@ -487,31 +490,33 @@ theorem initB_inv (init : Var → Val) (progs : List (List (Prog Var Val ε α))
     lock acquisitions / validations of `commit()`, with blocking on incompatible locks, the final
     shared memory and the values returned by the committed transactions are those of the
     sequential execution of the committed transactions in commit order -/
-theorem C07_serializable_B (init : Var → Val) (progs : List (List (Prog Var Val ε α))) (sched : List Nat) :
-    replay ((SysB.init init progs).exec sched).commits init =
-      some (vals ((SysB.init init progs).exec sched).store) :=
-  (execB_inv init sched _ (initB_inv init progs)).rep
+theorem C07_serializable_B (ord : List Var → List Var) (hord : ∀ l v, v ∈ l → v ∈ ord l)
+    (init : Var → Val) (progs : List (List (Prog Var Val ε α))) (sched : List Nat) :
+    replay ((SysB.init init progs).exec ord sched).commits init =
+      some (vals ((SysB.init init progs).exec ord sched).store) :=
+  (execB_inv ord hord init sched _ (initB_inv init progs)).rep
 
 /-- a variable is never write-held by one thread while another thread holds it (in any mode):
     what the lock table of the real code guarantees is an invariant of the model -/
-theorem C07_locks_exclusive_B (init : Var → Val) (progs : List (List (Prog Var Val ε α))) (sched : List Nat)
+theorem C07_locks_exclusive_B (ord : List Var → List Var) (hord : ∀ l v, v ∈ l → v ∈ ord l)
+    (init : Var → Val) (progs : List (List (Prog Var Val ε α))) (sched : List Nat)
     (i j : Nat) (ti tj : ThreadB Var Val ε α) (hij : i ≠ j)
-    (hi : ((SysB.init init progs).exec sched).threads[i]? = some ti)
-    (hj : ((SysB.init init progs).exec sched).threads[j]? = some tj) (v : Var)
+    (hi : ((SysB.init init progs).exec ord sched).threads[i]? = some ti)
+    (hj : ((SysB.init init progs).exec ord sched).threads[j]? = some tj) (v : Var)
     (h1 : heldBy ti v = true) (h2 : heldBy tj v = true) :
     wrote ti.th v = false ∧ wrote tj.th v = false :=
-  (execB_inv init sched _ (initB_inv init progs)).excl i j ti tj hij hi hj v h1 h2
+  (execB_inv ord hord init sched _ (initB_inv init progs)).excl i j ti tj hij hi hj v h1 h2
 
 /-! ## non-vacuity: two increments, lock steps interleaved -/
 
 /-- thread 0 and thread 1 both read x = 0 and write 1; both enter commit(); thread 0 locks x and
     commits; thread 1 then finds the version changed under the lock, restarts, and ends with 2 -/
-example : (vals ((SysB.init (fun _ => 0) [[C07.incr], [C07.incr]]).exec
+example : (vals ((SysB.init (fun _ => 0) [[C07.incr], [C07.incr]]).exec id
     [0, 1, 0, 1, 0, 1, 0, 0, 0, 1, 1, 1, 1, 1, 1, 1, 1]).store) 0 = 2 := by decide
-example : ((SysB.init (fun _ => (0 : Nat)) [[C07.incr], [C07.incr]]).exec
+example : ((SysB.init (fun _ => (0 : Nat)) [[C07.incr], [C07.incr]]).exec id
     [0, 1, 0, 1, 0, 1, 0, 0, 0, 1, 1, 1, 1, 1, 1, 1, 1]).commits.map (·.1) = [0, 1] := by decide
 /-- blocking really happens: while thread 0 holds the write lock of x, thread 1's lock step is a no-op -/
-example : ((SysB.init (fun _ => (0 : Nat)) [[C07.incr], [C07.incr]]).exec
+example : ((SysB.init (fun _ => (0 : Nat)) [[C07.incr], [C07.incr]]).exec id
     [0, 1, 0, 1, 0, 1, 0, 0, 1, 1, 1]).commits = [] := by decide
 
 end HC.C07B
